@@ -91,6 +91,7 @@ type finding struct {
 	Status      string `json:"status"` // known | fixed
 	Rule        string `json:"rule"`
 	Key         string `json:"key"`
+	Instance    string `json:"instance,omitempty"` // optional glob on the scenario instance name
 	Commit      string `json:"commit,omitempty"`
 	Description string `json:"description"`
 }
@@ -335,7 +336,7 @@ func cmdCheck(args []string) int {
 	for _, h := range hits {
 		matched := false
 		for i, f := range findings {
-			if f.Status == "known" && f.Property == id && globMatch(f.Rule, h.v.Rule) && globMatch(f.Key, h.v.Key) {
+			if f.Status == "known" && f.Property == id && globMatch(f.Rule, h.v.Rule) && globMatch(f.Key, h.v.Key) && (f.Instance == "" || globMatch(f.Instance, h.inst.Name)) {
 				knownSeen[i]++
 				matched = true
 				break
